@@ -1,3 +1,4 @@
+import OsuModel.Scalar
 /-
 Model of the bulk-parameter core of `wavespectra/spectrum.py` (C01–C04) and of the directional
 quadrature in `wavespectra/operations.py` / `tools/math.py`.
@@ -163,5 +164,22 @@ def integrate2d (fsteps dsteps : List α) (rows : List (List α)) : α :=
   lsum (List.zipWith (fun df row => lsum (List.zipWith (fun x dd => x * df * dd) row dsteps)) fsteps rows)
 
 end directional
+
+/-! ### Direction and spread (C03) -/
+
+section direction
+variable {α : Type} [Add α] [Sub α] [Mul α] [Div α] [Neg α] [Zero α] [One α] [NatCast α] [Transc α]
+
+/-- degrees per radian, `180 / π` -/
+def degPerRad : α := ((180 : Nat) : α) / Transc.pi
+
+/-- `_mean_direction(a1, b1) = arctan2(b1, a1) * 180 / pi` -/
+def meanDir (a b : α) : α := Transc.atan2 b a * ((180 : Nat) : α) / Transc.pi
+
+/-- `_spread(a1, b1) = sqrt(2 - 2 sqrt(a1² + b1²)) * 180 / pi` -/
+def spread (a b : α) : α :=
+  Transc.sqrt (((2 : Nat) : α) - ((2 : Nat) : α) * Transc.sqrt (a * a + b * b)) * ((180 : Nat) : α) / Transc.pi
+
+end direction
 
 end Osu.Spec
